@@ -137,9 +137,13 @@ func exec(op string) vlib.Res {
 	case "fail classify":
 		return failClassify(f[2], f[3] == "t", f[4], f[5], f[6])
 	case "pipe new":
-		return pipeNew(f[2], csvU32(f[3]))
+		return pipeNew(f[2], csvU32(f[3]), f[5:]...)
 	case "pipe query":
 		return pipeQuery(vlib.Atoi(f[2]), f[3] == "t", f[4] == "t", f[5], vlib.Atoi(f[6]), vlib.Atoi(f[7]))
+	case "pipe late":
+		return pipeLate(vlib.Atoi(f[2]), vlib.Atoi(f[3]), vlib.Atoi(f[4]), vlib.Atoi(f[5]))
+	case "pipe chain":
+		return pipeChain(vlib.Atoi(f[2]), vlib.Atoi(f[3]), f[4] == "t", f[5] == "t", f[6])
 	case "pipe alias":
 		return pipeAlias(vlib.Atoi(f[2]), f[3] == "t", f[4], vlib.Atoi(f[5]), vlib.Atoi(f[6]))
 	case "sub nest":
@@ -147,6 +151,10 @@ func exec(op string) vlib.Res {
 			return vlib.Res{Impl: "stale-constants", Oracle: "-"}
 		}
 		return subNest(f[2], uint32(vlib.AtoU64(f[3])))
+	case "ds new":
+		return dsNew(f)
+	case "ds verify":
+		return dsVerify(f)
 	case "sigs new":
 		return sigsNew(f)
 	case "sigs verify":
